@@ -239,7 +239,7 @@ def run(ctx):
             continue
         # ---- (M) metadata unchanged
         bad_meta = [k for k in ('sample_rate', 'start_time', 'center_freq', 'chan_bw', 'freq_align', 'pol_type', 'meta')
-                    if hasattr(z, k) and not _same(getattr(z, k), getattr(y, k))]
+                    if hasattr(z, k) and (not hasattr(y, k) or not _same(getattr(z, k), getattr(y, k)))]
         if type(y) is not type(z) or bad_meta or y.shape != z.shape or (np.iscomplexobj(yd) != np.iscomplexobj(data)):
             ctx.fail('metadata_changed', inp, impl=dict(type=type(y).__name__, attrs=bad_meta, shape=list(y.shape), dtype=str(yd.dtype)))
             continue
